@@ -1901,7 +1901,7 @@ pub fn profiles() -> Vec<Profile> {
     },
     Profile {
         name: "rn-acks",
-        props: &["C08", "C01", "C02", "C06", "C13", "C16", "C09"],
+        props: &["C08", "C01", "C02", "C06", "C13", "C16", "C09", "C15"],
         cases: |t| if t == Tier::Quick { 40 } else { 600 },
         new_world,
         script: script_acks,
@@ -2831,6 +2831,67 @@ fn oracle_unrel_work_conserving(ops: &[String], outs: &[String]) -> Option<Oracl
     None
 }
 
+/// C15 (last clause, from the trace alone): once an Ack packet naming sequence q has been processed by
+/// the endpoint that sent q less than 3 s (here: 2.9 s) earlier on its own clock, nothing q carried is
+/// transmitted again. Independent of the implementation's own bookkeeping (the dump-based oracle trusts
+/// the `acked` flags), so an acknowledgement the sender wrongly ignores is seen.
+fn oracle_c15_acked(ops: &[String], outs: &[String]) -> Option<OracleFail> {
+    let mut hist: HashMap<String, Vec<String>> = HashMap::new(); // endpoint -> emitted packets (hex), in order
+    let mut sent: HashMap<String, HashMap<u64, (u64, Vec<(u8, u64, i64)>)>> = HashMap::new(); // who -> seq -> (clock, entries)
+    let mut acked: HashMap<String, HashMap<(u8, u64, i64), usize>> = HashMap::new();
+    let mut clock: HashMap<String, u64> = HashMap::new();
+    let clock_key = |w: &str| if w.starts_with('s') { "srv".to_string() } else { w.to_string() };
+    for (i, (op, out)) in ops.iter().zip(outs.iter()).enumerate() {
+        let t: Vec<&str> = op.split(' ').collect();
+        match t[0] {
+            "raw" | "dlvm" | "rem" | "lnew" | "lproc" | "enc" | "dec" => return None,
+            "upd" if t.len() == 3 => {
+                *clock.entry(t[1].to_string()).or_insert(0) += t[2].parse::<u64>().unwrap_or(0);
+            }
+            "flush" if t.len() == 2 => {
+                let who = t[1].to_string();
+                let now = *clock.get(&clock_key(&who)).unwrap_or(&0);
+                for p in flush_packets(out) {
+                    hist.entry(who.clone()).or_default().push(p.to_string());
+                    let (seq, entries): (u64, Vec<(u8, u64, i64)>) = match decode(p) {
+                        Some(WPacket::SmallReliable { sequence, channel_id, messages }) => (sequence, messages.iter().map(|(id, _)| (channel_id, *id, -1i64)).collect()),
+                        Some(WPacket::ReliableSlice { sequence, channel_id, slice }) => (sequence, vec![(channel_id, slice.message_id, slice.slice_index as i64)]),
+                        Some(_) => continue,
+                        None => return None,
+                    };
+                    for e in entries.iter() {
+                        if let Some(at) = acked.get(&who).and_then(|a| a.get(e)) {
+                            return fail(i, "sent-after-ack-processed", format!("{} transmits channel {} message {} slice {} again although an acknowledgement for a packet carrying it was processed at op {}", who, e.0, e.1, e.2, at));
+                        }
+                    }
+                    sent.entry(who.clone()).or_default().insert(seq, (now, entries));
+                }
+            }
+            "dlv" if t.len() == 4 && out == "ok" => {
+                let (to, from) = (t[1].to_string(), t[2].to_string());
+                if peer_of(&to).as_deref() != Some(from.as_str()) {
+                    return None;
+                }
+                let k: usize = t[3].parse().ok()?;
+                let now = *clock.get(&clock_key(&to)).unwrap_or(&0);
+                if let Some(WPacket::Ack { ack_ranges, .. }) = hist.get(&from).and_then(|h| h.get(k)).and_then(|p| decode(p)) {
+                    if let Some(mine) = sent.get(&to) {
+                        for (seq, (at, entries)) in mine.iter() {
+                            if now.saturating_sub(*at) < 2_900_000 && ack_ranges.iter().any(|r| r.start <= *seq && *seq < r.end) {
+                                for e in entries {
+                                    acked.entry(to.clone()).or_default().entry(*e).or_insert(i);
+                                }
+                            }
+                        }
+                    }
+                }
+            }
+            _ => {}
+        }
+    }
+    None
+}
+
 /// C15 (not-early part + never-after-release): consecutive transmissions of the same reliable
 /// message / slice are at least resend_time apart on the sender's clock.
 fn oracle_c15(ops: &[String], outs: &[String]) -> Option<OracleFail> {
@@ -3020,6 +3081,7 @@ pub fn oracles() -> Vec<Oracle> {
         Oracle { prop: "C08", name: "acks-are-the-set", engines: &["rn-sweep-acks"], check: oracle_sweep_acks },
         Oracle { prop: "C06", name: "no-panic-bounded", engines: &["rn-"], check: oracle_c06 },
         Oracle { prop: "C09", name: "query-api", engines: &["rn-pair"], check: oracle_cansend },
+        Oracle { prop: "C15", name: "never-after-ack-processed", engines: &["rn-pair", "rn-timing", "rn-acks", "rn-tight", "rn-long", "rn-unrel"], check: oracle_c15_acked },
         Oracle { prop: "C14", name: "unreliable-work-conserving", engines: &["rn-unrel", "rn-pair", "rn-timing", "rn-long"], check: oracle_unrel_work_conserving },
         Oracle { prop: "C11", name: "unreliable-work-conserving", engines: &["rn-unrel", "rn-pair", "rn-timing", "rn-long"], check: oracle_unrel_work_conserving },
         Oracle { prop: "C09", name: "unreliable-in-budget", engines: &["rn-unrel"], check: oracle_unrel_budget },
